@@ -150,4 +150,22 @@ TEXT["C19"] = dict(engine="seqmc", design_ref="DESIGN.md 6 C19",
           "raise nitro::dl::exception with a diagnostic, symbols call into their own library",
     note="trusted: link-time interposition of dlopen/dlclose in the harness executable, this image's glibc loader, the reference counting model in checks/C19.cpp")
 
+_LOG_NOTE = ("trusted: the reference interpreter (severity >= compile-time minimum and boolean evaluation of the filter expression) and the recording "
+             "formatter/sink in checks/logmc.hpp; one binary per compile-time minimum; single-threaded (C09 covers threads)")
+TEXT["C05"] = dict(engine="enum", design_ref="DESIGN.md 6 C05",
+    technique="exhaustive enumeration of generated log programs per compile-time minimum, event-by-event comparison with a reference interpreter",
+    level="model checking of the implementation over generated programs: for each of the 6 compile-time minima, 14 filter expressions x threshold "
+          "grids x 6 severities x tag/no tag x both syntactic forms, threshold changes between statements, every item tuple of length <= 3 over "
+          "9 item kinds (strings, numbers, callables, manipulators, a callable that itself logs), every sequence of <= 3 statements over 7, and "
+          "two overlapping named streams; the event log (format, then each sequence-sink member in order, per enabled statement, in program "
+          "order, with severity, tag and concatenated message) must equal the reference's, nothing for disabled statements",
+    note=_LOG_NOTE)
+TEXT["C10"] = dict(engine="enum", design_ref="DESIGN.md 6 C10",
+    technique="exhaustive enumeration of generated log programs per compile-time minimum; static_assert on the stream type; callable-evaluation events vs reference",
+    level="model checking of the implementation over the same generated programs as C05: every instantiation asserts at compile time that a "
+          "statement below the minimum has the discarding stream type (and only those); at run time a callable streamed into a statement "
+          "disabled by the minimum or by the runtime filter is never called, and for an emitted record every callable is called exactly once, "
+          "at its position among the other items and before the record reaches the formatter - also when thresholds change between statements",
+    note=_LOG_NOTE)
+
 NA = {}
